@@ -120,7 +120,7 @@ def run_case(seed, i, tier):
             cr.violations.append(Violation(cls, "family=%s bsz=%d schedule#%d policy=%s: %s" % (fam, bsz, k, plan.policy, detail), rp))
         if vs:
             break
-    if i % 50 == 0:
+    if True:
         cr.sample = {"family": fam, "argv": opts + [s.path for s in srcs], "sources": merge.describe(srcs),
                      "schedules": K, "expected_stdout_head": expected[:200].decode("latin-1")}
     return cr
